@@ -23,7 +23,7 @@ ToSt(p, c) ==
    tokens |-> [t \in Tokens |-> p.tokens[t]],
    regw   |-> p.regw,
    gen    |-> p.gen,
-   cfg    |-> [sw |-> c.sw, nidl |-> c.nidl, so |-> c.so]]
+   cfg    |-> [sw |-> c.sw, nidl |-> c.nidl, so |-> c.so, rmerr |-> c.rmerr]]
 
 IsTokenEnrol(e) == e.op.op = "Fetch" /\ e.op.n \in Tokens /\ ~HasWrapped(e.op) /\ ~HasRewrapped(e.op) /\ e.res = "issued"
 
@@ -50,6 +50,8 @@ Viols(e, pre, post, enrNext) ==
      (IF ~AllowedC06(pre, e.op, e.res, post) THEN {<<"C06", "token-step">>} ELSE {}) \cup
      (IF \E t \in Tokens : Cardinality(enrNext[t]) > 1 THEN {<<"C06", "token-enrolled-two-nodes">>} ELSE {})
    ELSE {}) \cup
+  (IF "C06" \in Props /\ e.op.op = "FetchRace" /\ (e.res = "both" \/ (post.nodes[e.op.ka].present /\ post.nodes[e.op.kb].present))
+     THEN {<<"C06", "token-enrolled-two-nodes-by-overlapping-fetches">>} ELSE {}) \cup
   (IF "C06" \in Props /\ e.op.op = "CreateToken" /\ e.res = "ok" /\ e.obs.reconstructible
      THEN {<<"C06", "stored-token-record-suffices-to-reconstruct-the-token">>} ELSE {}) \cup
   (IF "C03" \in Props /\ e.op.op = "Submit" THEN
